@@ -54,6 +54,8 @@ func (l Logr) AddAgentInput(AgentType, AgentID, User, TaskID, Input string, time
 	if err != nil {
 		log.Fatal(err)
 	}
+	// one descriptor per console line must not wait for the garbage collector
+	defer f.Close()
 
 	InputString = fmt.Sprintf("\n[Time: %v] [User: %v] [TaskID: %v] %v => %v\n", time, User, TaskID, AgentType, Input)
 
@@ -88,6 +90,8 @@ func (l Logr) AddAgentRaw(AgentID, Raw string) {
 	if err != nil {
 		log.Fatal(err)
 	}
+	// one descriptor per console line must not wait for the garbage collector
+	defer f.Close()
 
 	_, err = f.Write([]byte(Raw))
 	if err != nil {
@@ -120,6 +124,8 @@ func (l Logr) DemonAddOutput(DemonID string, Output map[string]string, time stri
 	if err != nil {
 		log.Fatal(err)
 	}
+	// one descriptor per console line must not wait for the garbage collector
+	defer f.Close()
 
 	var OutputString string
 
